@@ -133,11 +133,16 @@ impl Univ {
 enum Req {
     Root,
     Node(u64),
+    /// drop the guard, keep the handle returned by get_tree
+    Release,
+    /// lock the kept handle again
+    Relock,
     Unlock,
 }
 enum Resp {
     Locked(bool),
     Val(Result<NodeVal, String>),
+    Released,
     Unlocked,
 }
 
@@ -160,21 +165,38 @@ impl ReaderHandle {
                     return
                 },
             };
-            {
-                let guard = tree.read();
-                let _ = rtx.send(Resp::Locked(true));
-                for req in rrx.iter() {
-                    match req {
-                        Req::Root => {
-                            let _ = rtx.send(Resp::Val(guard.get_root().map_err(|e| e.to_string())));
-                        },
-                        Req::Node(a) => {
-                            let _ = rtx.send(Resp::Val(guard.get_node(a).map_err(|e| e.to_string())));
-                        },
-                        Req::Unlock => break,
+            loop {
+                let mut keep = false;
+                {
+                    let guard = tree.read();
+                    let _ = rtx.send(Resp::Locked(true));
+                    for req in rrx.iter() {
+                        match req {
+                            Req::Root => {
+                                let _ = rtx.send(Resp::Val(guard.get_root().map_err(|e| e.to_string())));
+                            },
+                            Req::Node(a) => {
+                                let _ = rtx.send(Resp::Val(guard.get_node(a).map_err(|e| e.to_string())));
+                            },
+                            Req::Release => {
+                                keep = true;
+                                break
+                            },
+                            Req::Relock => {},
+                            Req::Unlock => break,
+                        }
                     }
+                    drop(guard);
                 }
-                drop(guard);
+                if !keep {
+                    break
+                }
+                let _ = rtx.send(Resp::Released);
+                // the client keeps the handle (Arc) while unlocked
+                match rrx.recv() {
+                    Ok(Req::Relock) => continue,
+                    _ => break,
+                }
             }
             drop(tree);
             drop(db);
@@ -191,6 +213,16 @@ impl ReaderHandle {
                 None
             },
         }
+    }
+    /// release the lock but keep the handle of get_tree alive in the reader thread
+    pub fn release(&self) -> bool {
+        let _ = self.tx.send(Req::Release);
+        matches!(self.rx.recv(), Ok(Resp::Released))
+    }
+    /// lock the kept handle again (no new get_tree call)
+    pub fn relock(&self) -> bool {
+        let _ = self.tx.send(Req::Relock);
+        matches!(self.rx.recv(), Ok(Resp::Locked(true)))
     }
     pub fn unlock(mut self) {
         let _ = self.tx.send(Req::Unlock);
@@ -397,6 +429,8 @@ struct Run<'a> {
     db: Option<Arc<Db>>,
     bind: Binding,
     readers: HashMap<u64, ReaderHandle>,
+    /// handles kept (unlocked) by clients after an Unlock step: the next Lock of that tree goes through them
+    kept: HashMap<u64, ReaderHandle>,
     cid_off: u64,
     last_cid: u64,
     crashes: usize,
@@ -688,6 +722,19 @@ impl<'a> Run<'a> {
             },
             "Lock" => {
                 let k = st["k"].as_u64().unwrap();
+                if let Some(h) = self.kept.remove(&k) {
+                    // a client that kept the handle of an earlier get_tree locks it again
+                    if !h.relock() {
+                        return Err(format!("tree {k}: the kept reader handle could not be locked again"))
+                    }
+                    match h.root() {
+                        Ok(Some(_)) => {},
+                        Ok(None) => return Err(format!("tree {k}: kept reader handle locked again: root absent, the specification has a visible root")),
+                        Err(e) => return Err(format!("tree {k}: kept reader handle: {e}")),
+                    }
+                    self.readers.insert(k, h);
+                    return Ok(())
+                }
                 match ReaderHandle::lock(self.db.clone().unwrap(), u.tkey(k)) {
                     Some(h) => {
                         self.readers.insert(k, h);
@@ -699,7 +746,12 @@ impl<'a> Run<'a> {
             "Unlock" => {
                 let k = st["k"].as_u64().unwrap();
                 if let Some(h) = self.readers.remove(&k) {
-                    h.unlock();
+                    // every other unlock keeps the handle (seeded by the universe and the key)
+                    if mix(u.seed, 31 + k + self.last_cid) % 2 == 0 && h.release() {
+                        self.kept.insert(k, h);
+                    } else {
+                        h.unlock();
+                    }
                 }
                 Ok(())
             },
@@ -772,6 +824,9 @@ impl<'a> Run<'a> {
                 }
             },
             "Restart" => {
+                for (_, h) in self.kept.drain() {
+                    h.unlock();
+                }
                 self.drain()?;
                 let db = self.db.take().unwrap();
                 match Arc::try_unwrap(db) {
@@ -783,6 +838,9 @@ impl<'a> Run<'a> {
             },
             "Crash" => {
                 // the process dies here: the directory as it is now is what the next open sees
+                for (_, h) in self.kept.drain() {
+                    h.unlock();
+                }
                 self.crashes += 1;
                 let img = self.dir.with_file_name(format!("{}_c{}", self.dir.file_name().unwrap().to_string_lossy(), self.crashes));
                 let _ = std::fs::remove_dir_all(&img);
@@ -843,7 +901,7 @@ pub fn cmd_replay(args: &HashMap<String, String>) -> i32 {
         let obs = b["obs"].as_array().unwrap();
         let u = Univ { seed: mix(seed, idx as u64), v: v.clone() };
         let dir = fresh_dir(&root, &format!("mt{idx}"));
-        let mut run = Run { u: &u, dir: dir.clone(), db: None, bind: Binding::default(), readers: HashMap::new(), cid_off: 0, last_cid: 0, crashes: 0,
+        let mut run = Run { u: &u, dir: dir.clone(), db: None, bind: Binding::default(), readers: HashMap::new(), kept: HashMap::new(), cid_off: 0, last_cid: 0, crashes: 0,
                             events: Arc::new(Mutex::new(Vec::new())), gate: Arc::new(Mutex::new(None)), worker: None };
         run.install_sink();
         let mut viol: Vec<J> = Vec::new();
@@ -893,7 +951,7 @@ pub fn cmd_replay(args: &HashMap<String, String>) -> i32 {
         if leak_seen > 0 && viol.is_empty() {
             viol.push(json!({"step": steps.len(), "a": "Crash", "what": format!("slot leak after crash: {leak_seen} value-table slots claimed at commit time by transactions that were lost in the crash are neither in use nor on the free list")}));
         }
-        for (_, h) in run.readers.drain() {
+        for (_, h) in run.readers.drain().chain(run.kept.drain()) {
             h.unlock();
         }
         if let Some(g) = run.gate.lock().unwrap().take() {
